@@ -173,12 +173,25 @@ def run_system(case, rng, cls):
                 phi.apply_BCs()
             cov['side_edit:' + edited] = 1
             cov['side_edit_how:' + how] = 1
+    if rng.random() < 0.35:
+        # a copy of the variable gets boundary data of its own and is solved first; the system of the ORIGINAL is still the one
+        # its own (unchanged) boundary conditions define
+        kt = int(rng.integers(0, g.nd))
+        if kt not in spec['periodic']:
+            twin = phi.copy()
+            ft = getattr(twin.BCs, SIDES[kt][int(rng.integers(0, 2))])
+            ft.c = np.asarray(ft.c) * 0.5 + 1.7 * Ku
+            with np.errstate(all='ignore'):
+                pf.solvePDE(twin, [pf.transientTerm(twin, 0.7 * (units['T'] if units else 1.0), 1.0)])
+            cov['copy_solved_first'] = 1
     terms = draw_terms(rng, m, g, phi, units=units)
     Ms, bs = assemble(phi, terms)
     kinds = sorted(k for _, k in terms)
     spy = SpySolver()
+    term_list = [t for t, _ in terms]            # ONE list object, handed to solvePDE again further down
+    n_terms0 = len(term_list)
     with np.errstate(all='ignore'):
-        ret = pf.solvePDE(phi, [t for t, _ in terms], externalsolver=spy)
+        ret = pf.solvePDE(phi, term_list, externalsolver=spy)
     M, b, x = spy.last
     n = M.shape[0]
     if not np.all(np.isfinite(x)):
@@ -257,6 +270,28 @@ def run_system(case, rng, cls):
         e = float(np.max(np.abs(np.asarray(phi2.value) - np.asarray(phi.value)))) / scale
         if e > 1e-13 * cond + 1e-14:
             bad.append(('external-vs-default', 'external-solver path and default path differ by %.3g' % e))
+    # the same list object re-used for another solve after the boundary data of one side changed (terms built once, loop over BCs)
+    kr = int(rng.integers(0, g.nd))
+    if not bad and kr not in spec['periodic'] and cond_plain is not None:
+        fr_ = getattr(phi.BCs, SIDES[kr][int(rng.integers(0, 2))])
+        fr_.c = np.asarray(fr_.c) - 0.8 * Ku
+        spy_r = SpySolver()
+        with np.errstate(all='ignore'):
+            pf.solvePDE(phi, term_list, externalsolver=spy_r)
+        Mr, br, xr = spy_r.last
+        Msr, bsr = assemble(phi, terms)
+        dr = abs(sp.csr_array(Mr) - Msr).toarray()
+        scr = (abs(sp.csr_array(Mr)) + abs(Msr)).toarray()
+        with np.errstate(all='ignore'):
+            er = np.where(dr == 0, 0.0, dr / np.where(scr > 0, scr, 1.0))
+        e1r = float(er.max()) if er.size else 0.0
+        e2r = nerr(br, bsr, np.abs(br) + np.abs(bsr))
+        maxerr['system-entries-reused-list'] = max(e1r, e2r)
+        cov['term_list_reused'] = 1
+        if len(term_list) != n_terms0:
+            bad.append(('term-list-modified', 'solvePDE changed the caller\'s term list (%d -> %d entries)' % (n_terms0, len(term_list))))
+        if not (e1r <= 1e-12 and e2r <= 1e-12):
+            bad.append(('system-differs-reused-list', 'second solvePDE call with the SAME term list after a boundary-data edit: the system handed to the solver differs from (current boundary rows + sum of the terms): matrix error %.3g, rhs error %.3g' % (e1r, e2r)))
     cov['systems'] = 1
     cov['terms'] = len(terms)
     for k in set(kinds):
@@ -397,7 +432,7 @@ def floors(agg, tier):
     for k in ('termkind:pair:transient', 'termkind:M:-diffusion', 'termkind:M:upwind', 'termkind:M:central', 'termkind:v:constsource',
               'termkind:v:tvd', 'termkind:pair:generic', 'default_path_checked', 'side_edit:left', 'side_edit:right', 'side_edit:bottom', 'side_edit:top', 'side_edit:back', 'side_edit:front',
               'side_edit_how:setter', 'side_edit_how:untracked+apply_BCs', 'side_edit_how:replace-object+apply_BCs',
-              'unit_L:small', 'unit_L:large', 'unit_T:small', 'unit_T:large', 'unit_K:small', 'unit_K:large', 'geo:int', 'geo:jitter'):
+              'copy_solved_first', 'term_list_reused', 'unit_L:small', 'unit_L:large', 'unit_T:small', 'unit_T:large', 'unit_K:small', 'unit_K:large', 'geo:int', 'geo:jitter'):
         if agg['cov'].get(k, 0) < 5:
             out.append('%s < 5' % k)
     return out
